@@ -131,7 +131,15 @@ class StartStageConditionsMixin:
         for s in all_stages:
             if s.id == stage.id:
                 continue
-            if s.deferred_choice_group == stage.deferred_choice_group and s.status != WorkflowStatus.NOT_STARTED:
+            if s.deferred_choice_group != stage.deferred_choice_group:
+                continue
+            # Only a sibling that actually STARTED has taken the choice. A
+            # sibling that left NOT_STARTED without starting - SKIPPED by its
+            # own condition, or CANCELED as the loser - has no start_time;
+            # counting it made the only enabled branch cancel itself (zero
+            # winners) and let a duplicate StartStage cancel the running
+            # winner because its canceled loser "had claimed" the group.
+            if s.status != WorkflowStatus.NOT_STARTED and s.start_time is not None:
                 return True
         return False
 
